@@ -43,3 +43,27 @@ pub fn reserved_range() -> (Address, usize) {
 pub fn metadata_address_range_size(spec: &SideMetadataSpec) -> usize {
     super::metadata_address_range_size(spec)
 }
+
+/// What `initialize_side_metadata::<VM>` does for a VM whose side specs are `vm_side_specs`:
+/// register the VM side metadata layout, then reserve the side metadata address range.
+/// Once per process.
+pub fn initialize_with_vm_side_specs(vm_side_specs: &[SideMetadataSpec]) {
+    super::layout::set_vm_side_metadata_specs(vm_side_specs);
+    super::layout::initialize_side_metadata_base(
+        Address::ZERO,
+        crate::util::os::HugePageSupport::No,
+    );
+}
+
+/// Every spec defined in `spec_defs.rs`: `(global specs, local specs)` in table order.
+pub fn all_core_specs() -> (Vec<SideMetadataSpec>, Vec<SideMetadataSpec>) {
+    super::spec_defs::verif_all_core_specs()
+}
+
+/// `LAST_GLOBAL_SIDE_METADATA_SPEC` and `LAST_LOCAL_SIDE_METADATA_SPEC`.
+pub fn last_core_specs() -> (SideMetadataSpec, SideMetadataSpec) {
+    (
+        super::spec_defs::LAST_GLOBAL_SIDE_METADATA_SPEC,
+        super::spec_defs::LAST_LOCAL_SIDE_METADATA_SPEC,
+    )
+}
